@@ -90,7 +90,7 @@ pub fn run(kind: Kind, le: EmptyEnc, re: EmptyEnc, st: &mut Stats, order: u64) {
     for (name, res) in calls {
         st.add("empty", 1, 1);
         let problem = match res {
-            Err(p) => Some((format!("c20:empty-input:{}", p.fingerprint()), format!("panicked: {p:?}"))),
+            Err(p) => Some((format!("c20:empty-input:{}", crate::util::pfp(&p)), format!("panicked: {p:?}"))),
             Ok(Err(e)) => Some((format!("c20:empty-input:{}:unexpected-error", name.split('(').next().unwrap()), format!("Err({e})"))),
             Ok(Ok(out)) => {
                 if let Err(e) = out.to_data().validate_full() {
@@ -106,6 +106,7 @@ pub fn run(kind: Kind, le: EmptyEnc, re: EmptyEnc, st: &mut Stats, order: u64) {
             None => st.outcome("empty-input:ok"),
             Some((fp, detail)) => {
                 st.outcome("empty-input:failure");
+                st.count(&format!("empty_input_failures:{name}:{}:left={le:?}:right={re:?}", kind.name()), 1);
                 st.violate(order, fp, format!("{name} on zero-length {} inputs (left {le:?}, right {re:?}): {detail}", kind.name()), || json!({"sub": "empty", "kernel": name, "kind": kind.name(), "left": format!("{le:?}"), "right": format!("{re:?}"), "detail": detail}));
             }
         }
